@@ -1893,11 +1893,13 @@ class AppFn(ModFn):
         fn, nodes = r
         scope = set(self.vars) | set(self.params)
         cs = ["fuel"] if fn.fuel else []
+        self._call_guards = []
         for a, (pn, pt) in zip(nodes, fn.params.items()):
             if isinstance(a, str):
                 cs.append(a); continue
             c, t, g = self.expr(a, scope)
-            if not self.same(t, pt) or g: bad(a, "argument of a call must be an unguarded %r, found %r" % (pt, t))
+            if not self.same(t, pt): bad(a, "argument of a call must be a %r, found %r" % (pt, t))
+            self._call_guards += g
             cs.append(c)
         return " ".join(cs), fn
 
@@ -1974,7 +1976,7 @@ class AppFn(ModFn):
             m = self.method_call(e)
             if m is not None:
                 args, fn = m
-                if fn.pure: return "(%s %s)" % (fn.coq, args), fn.ret, []
+                if fn.pure: return "(%s %s)" % (fn.coq, args), fn.ret, list(self._call_guards)
                 bad(e, "call of %s inside an expression" % fn.name)
             return None
         if isinstance(e, ast.BinOp):
@@ -2161,6 +2163,14 @@ class AppFn(ModFn):
                 c, t, g = self.expr(v, env)
                 if not self.same(t, self.vars[x]): bad(s, "parameter %s changes type" % x)
                 return self.guard(g, "(let v_%s := %s in %s)" % (x, c, self.block(rest, env | {x}, k)))
+        if isinstance(s, ast.Assign) and len(s.targets) == 1 and isinstance(s.targets[0], ast.Name) and isinstance(s.value, ast.Call):
+            m = self.method_call(s.value)
+            if m is not None and not m[1].pure:
+                args, fn = m
+                gs = list(self._call_guards)
+                x = s.targets[0].id
+                self.declare(x, fn.ret, s)
+                return self.guard(gs, "(bindr (%s %s) (fun v_%s => %s))" % (fn.coq, args, x, self.block(rest, env | {x}, k)))
         if isinstance(s, ast.Assign) and len(s.targets) == 1 and isinstance(s.targets[0], ast.Subscript) and isinstance(s.targets[0].value, ast.Name):
             d = s.targets[0].value.id
             if d in env and self.vars[d][0] == "dict":
@@ -2190,9 +2200,10 @@ class AppFn(ModFn):
             m = self.method_call(s.value) if isinstance(s.value, ast.Call) else None
             if m is not None and not m[1].pure:
                 args, fn = m
+                gs = list(self._call_guards)
                 if fn.ret == QT: self.qret = True
                 self.set_ret(fn.ret, s)
-                return "(retcall (%s %s))" % (fn.coq, args)
+                return self.guard(gs, "(retcall (%s %s))" % (fn.coq, args))
             c, t, g = self.expr(s.value, env)
             if t == QT: self.qret = True
             if t == Z and self.qret: c, t = "(%s, 1)" % c, QT
@@ -2328,12 +2339,334 @@ class AppTranslator:
         return "\n".join(out)
 
 
+LIN = T_list(T_tuple([GI, PS]))
+
+class LinFn(AppFn):
+    """a method of PauliStringLinear (common/pauli_string_linear.py) on the object = its list of (coefficient, string) terms
+    (Model/Linear.lin).  Coefficients are Gaussian integers (Model/Pauli.gi): Python's complex arithmetic is exact on them, so
+    + * np.conj are gadd / gmul / gconj, `abs(c) > 1e-12` is c != 0, `abs(c) < 1e-12` and `c == 0` are c = 0, np.isclose(a, b) is a = b,
+    0.0 / 0.0j are 0, complex(x) is x (floating point itself is NOT modelled: on other coefficients nothing is claimed).
+    Contracts: PauliStringLinear(l) and get_pauli_string(l) for a non-empty list of tuples hold the terms l (constructor re-parses the text
+    of every string; pinned); get_pauli_string([]) is a PauliStringCollection — outside the model (outcome NonInt); x.get_size() = size_of x
+    (pinned); iterating a combination or its .combinations yields its terms in order (__iter__/__next__ pinned; the shared cursor is not
+    modelled — no translated method iterates one object inside an iteration of the same object); isinstance(other, PauliStringLinear) holds
+    for the operand (the NotImplemented / TypeError branches are not reached); defaultdict(complex) keyed by str(p) is Linear.dict_add;
+    a dict comprehension stores in order; d.keys() == e.keys() compares key sets; p.sign(q) = sign_code, p.multiply(q) = multiply_code,
+    p.is_identity() = is_identity; 'I' * k is the identity string of length k."""
+    def __init__(self, tr, node, coq):
+        node.decorator_list = [d for d in node.decorator_list if not (isinstance(d, ast.Name) and d.id == "property")]
+        AppFn.__init__(self, tr, node, "PauliStringLinear", coq)
+        self.params["self"] = LIN
+
+    def ann_type(self, a, node):
+        txt = ast.unparse(a) if a is not None else None
+        tbl = {"object": LIN, "complex": GI, "int": Z}
+        if txt not in tbl: bad(node, "annotation %r" % txt)
+        return tbl[txt]
+
+    def is_lin(self, t): return t == LIN
+
+    def shadow(self, names, types):
+        """a comprehension variable is local to the comprehension and may shadow a local of the function (the Coq binder shadows likewise)"""
+        saved = [(n_, self.vars.get(n_)) for n_ in names]
+        for n_, t_ in zip(names, types): self.vars[n_] = t_
+        return saved
+    def unshadow(self, saved):
+        for n_, t_ in saved:
+            if t_ is None: del self.vars[n_]
+            else: self.vars[n_] = t_
+
+    def isinstance_true(self, e, env):
+        if isinstance(e, ast.Call) and isinstance(e.func, ast.Name) and e.func.id == "isinstance" and len(e.args) == 2 and not e.keywords:
+            cls = ast.unparse(e.args[1])
+            if cls in ("PauliStringLinear", "self.__class__"):
+                c, t, g = self.expr(e.args[0], env)
+                if t == LIN: return True
+            if cls == "(int, float, complex)":
+                c, t, g = self.expr(e.args[0], env)
+                if t == GI: return True
+        return None
+
+    def gi_of(self, e, env):
+        c, t, g = self.expr(e, env)
+        if t == GI: return c, g
+        if t == Z: return "(%s, 0)" % c, g
+        bad(e, "a number was expected, found %r" % (t,))
+
+    def expr_extra(self, e, env):
+        if isinstance(e, ast.Constant) and isinstance(e.value, (float, complex)) and not isinstance(e.value, bool):
+            if e.value == 0: return "g0", GI, []
+            bad(e, "float constant")
+        if isinstance(e, ast.Attribute) and e.attr == "combinations":
+            c, t, g = self.expr(e.value, env)
+            if t != LIN: bad(e, ".combinations of %r" % (t,))
+            return c, LIN, g
+        if isinstance(e, ast.Name) and e.id == "self": return "v_self", LIN, []
+        if isinstance(e, ast.BinOp) and isinstance(e.op, ast.Mult) and isinstance(e.left, ast.Constant) and e.left.value == "I":
+            c, t, g = self.expr(e.right, env)
+            if t != Z: bad(e, "'I' * non-int")
+            return "(identity (Z.to_nat %s))" % c, PS, g
+        if isinstance(e, ast.BinOp) and isinstance(e.op, (ast.Mult, ast.Add)):
+            a, ta, ga = self.expr(e.left, env)
+            if ta == GI or (ta == Z and self.expr(e.right, env)[1] == GI):
+                a2, ga2 = self.gi_of(e.left, env); b2, gb2 = self.gi_of(e.right, env)
+                return "(%s %s %s)" % ("gmul" if isinstance(e.op, ast.Mult) else "gadd", a2, b2), GI, ga2 + gb2
+            return None
+        if isinstance(e, ast.Compare) and len(e.ops) == 1:
+            l, op, r = e.left, e.ops[0], e.comparators[0]
+            if isinstance(l, ast.Call) and isinstance(l.func, ast.Name) and l.func.id == "abs" and len(l.args) == 1 and isinstance(r, ast.Constant) and r.value == 1e-12:
+                c, t, g = self.expr(l.args[0], env)
+                if t != GI: bad(e, "abs of %r" % (t,))
+                if isinstance(op, ast.Gt): return "(negb (gzero %s))" % c, B, g
+                if isinstance(op, ast.Lt): return "(gzero %s)" % c, B, g
+                bad(e, "comparison with the tolerance")
+            if isinstance(op, (ast.Eq, ast.NotEq)) and isinstance(l, ast.Call) and isinstance(r, ast.Call) and ast.unparse(l.func).endswith(".keys") and ast.unparse(r.func).endswith(".keys") \
+               and not l.args and not r.args:
+                a, ta, ga = self.expr(l.func.value, env); b, tb, gb = self.expr(r.func.value, env)
+                if ta != T_dict(PS, GI) or tb != ta: bad(e, "keys() of non-dicts")
+                c = "(keys_eqb %s %s)" % (a, b)
+                return (c if isinstance(op, ast.Eq) else "(negb %s)" % c), B, ga + gb
+            if isinstance(op, (ast.Eq, ast.NotEq)):
+                a, ta, ga = self.expr(l, env)
+                if ta == GI:
+                    if not (isinstance(r, ast.Constant) and r.value == 0 and not isinstance(r.value, bool)): bad(e, "== on coefficients other than == 0")
+                    c = "(gzero %s)" % a
+                    return (c if isinstance(op, ast.Eq) else "(negb %s)" % c), B, ga
+            return AppFn.expr_extra(self, e, env)
+        if isinstance(e, ast.Subscript) and not isinstance(e.slice, ast.Slice):
+            c, t, g = self.expr(e.value, env)
+            if t == T_dict(PS, GI):
+                kc, kt, kg = self.expr(e.slice, env)
+                if kt != PS: bad(e, "dict key")
+                return "(gdict_get %s %s)" % (c, kc), GI, g + kg + [("(gdict_mem %s %s)" % (c, kc), "Raised EKey")]
+            return AppFn.expr_extra(self, e, env)
+        if isinstance(e, ast.DictComp):
+            if len(e.generators) != 1 or e.generators[0].ifs or e.generators[0].is_async: bad(e, "dict comprehension shape")
+            gen = e.generators[0]
+            it, tit, git = self.expr(gen.iter, env)
+            names = [x.id for x in gen.target.elts] if isinstance(gen.target, ast.Tuple) and all(isinstance(x, ast.Name) for x in gen.target.elts) else None
+            if names is None or tit != LIN or len(names) != 2: bad(e, "dict comprehension over %r" % (tit,))
+            saved = self.shadow(names, (GI, PS))
+            try:
+                kc, kt, kg = self.expr(e.key, env | set(names)); vc, vt, vg = self.expr(e.value, env | set(names))
+            finally:
+                self.unshadow(saved)
+            if (kt, vt) != (PS, GI) or kg or vg: bad(e, "dict comprehension entry types")
+            return "(fold_left (fun d_ it_ => let '(v_%s, v_%s) := it_ in gdict_set d_ %s %s) %s [])" % (names[0], names[1], kc, vc, it), T_dict(PS, GI), git
+        if isinstance(e, ast.ListComp) and isinstance(e.generators[0].target, ast.Tuple):
+            if len(e.generators) != 1 or e.generators[0].is_async or not all(isinstance(x, ast.Name) for x in e.generators[0].target.elts): bad(e, "list comprehension shape")
+            gen = e.generators[0]
+            names = [x.id for x in gen.target.elts]
+            it, tit, git = self.expr(gen.iter, env)
+            if tit[0] != "list" or tit[1][0] != "tuple" or len(tit[1][1]) != len(names): bad(e, "comprehension over %r" % (tit,))
+            saved = self.shadow(names, tit[1][1])
+            try:
+                conds = [self.truthy(i_, env | set(names)) for i_ in gen.ifs]
+                c, t, g = self.expr(e.elt, env | set(names))
+            finally:
+                self.unshadow(saved)
+            if g or any(cg for _, cg, _ in conds): bad(e, "guarded operation in a comprehension over tuples")
+            bind = "fun it_ => let '(%s) := it_ in " % ", ".join("v_" + n_ for n_ in names)
+            src_l = it
+            for cc, _, _ in conds: src_l = "(filter (%s%s) %s)" % (bind, cc, src_l)
+            return "(map (%s%s) %s)" % (bind, c, src_l), T_list(t), git
+        if isinstance(e, ast.Call):
+            f = e.func
+            src = ast.unparse(e)
+            if isinstance(f, ast.Attribute) and f.attr == "get_size" and not e.args and not e.keywords:
+                c, t, g = self.expr(f.value, env)
+                if t != LIN: bad(e, "get_size of %r" % (t,))
+                return "(Z.of_nat (size_of %s))" % c, Z, g
+            if isinstance(f, ast.Attribute) and f.attr in ("items", "values") and not e.args and not e.keywords:
+                c, t, g = self.expr(f.value, env)
+                if t != T_dict(PS, GI): bad(e, "%s of %r" % (f.attr, t))
+                return (c, T_list(T_tuple([PS, GI])), g) if f.attr == "items" else ("(map snd %s)" % c, T_list(GI), g)
+            if isinstance(f, ast.Name) and f.id in ("PauliStringLinear", "p") and len(e.args) == 1 and not e.keywords:
+                c, t, g = self.expr(e.args[0], env)
+                if t != LIN: bad(e, "%s of %r" % (f.id, t))
+                if f.id == "p": g = g + [("(negb %s)" % is_nil(c), "NonInt")]
+                return c, LIN, g
+            if isinstance(f, ast.Name) and f.id == "complex" and len(e.args) == 1 and not e.keywords:
+                c, g = self.gi_of(e.args[0], env)
+                return c, GI, g
+            if src.startswith("np.conj(") and len(e.args) == 1 and not e.keywords:
+                c, g = self.gi_of(e.args[0], env)
+                return "(gconj %s)" % c, GI, g
+            if src.startswith("np.isclose(") and len(e.args) == 2 and not e.keywords:
+                a, ga = self.gi_of(e.args[0], env); b, gb = self.gi_of(e.args[1], env)
+                return "(gi_eqb %s %s)" % (a, b), B, ga + gb
+            if isinstance(f, ast.Name) and f.id == "all" and len(e.args) == 1 and isinstance(e.args[0], ast.GeneratorExp):
+                ge = e.args[0]
+                if len(ge.generators) != 1 or ge.generators[0].ifs or not isinstance(ge.generators[0].target, ast.Name): bad(e, "generator shape")
+                x = ge.generators[0].target.id
+                it, tit, git = self.expr(ge.generators[0].iter, env)
+                if tit[0] != "list": bad(e, "all over %r" % (tit,))
+                saved = self.shadow([x], [tit[1]])
+                try:
+                    c, t, g = self.expr(ge.elt, env | {x})
+                finally:
+                    self.unshadow(saved)
+                if t != B or g: bad(e, "all of a non-bool or guarded element")
+                return "(forallb (fun v_%s => %s) %s)" % (x, c, it), B, git
+            if isinstance(f, ast.Attribute) and f.attr in ("sign", "multiply") and len(e.args) == 1 and not e.keywords:
+                a, b, g = self.pair_op(e, env, f.value, e.args[0], f.attr)
+                if f.attr == "sign": return "(res_val g0 (sign_code %s %s))" % (a, b), GI, g + [("(res_ok (sign_code %s %s))" % (a, b), VERR)]
+                return "(res_val [] (multiply_code %s %s))" % (a, b), PS, g + [("(res_ok (multiply_code %s %s))" % (a, b), VERR)]
+            if isinstance(f, ast.Attribute) and f.attr == "is_identity" and not e.args and not e.keywords:
+                c, t, g = self.expr(f.value, env)
+                if t != PS: bad(e, "is_identity of %r" % (t,))
+                return "(is_identity %s)" % c, B, g
+            return AppFn.expr_extra(self, e, env)
+        return AppFn.expr_extra(self, e, env)
+
+    def resolve(self, e):
+        if isinstance(e, ast.Call) and isinstance(e.func, ast.Attribute) and not e.keywords and e.func.attr in self.tr.fns:
+            scope = set(self.vars) | set(self.params)
+            try:
+                _, t, _ = self.expr(e.func.value, scope)
+            except Unsupported:
+                return None
+            if t != LIN: return None
+            fn = self.tr.fns[e.func.attr]
+            if len(e.args) != len(fn.params) - 1: bad(e, "arity")
+            return fn, [e.func.value] + list(e.args)
+        return None
+
+    def block(self, stmts, env, k):
+        if not stmts:
+            return AppFn.block(self, stmts, env, k)
+        s, rest = stmts[0], stmts[1:]
+        if isinstance(s, ast.ImportFrom):
+            if ast.unparse(s) != "from paulie.common.pauli_string_factory import get_pauli_string as p": bad(s, "local import")
+            return self.block(rest, env, k)
+        if isinstance(s, ast.For) and isinstance(s.iter, ast.Name) and s.iter.id in self.params and self.params[s.iter.id] == LIN:
+            # iteration through the object's own __iter__/__next__ (one cursor per object): inside another such iteration the two
+            # operands may be the same object (a @ a) and the inner loop would exhaust the outer one — outside the contract
+            if getattr(self, "_proto_depth", 0) > 0: bad(s, "iteration over a PauliStringLinear object nested in another one: the operands may alias and share the cursor")
+            self._proto_depth = getattr(self, "_proto_depth", 0) + 1
+            try:
+                return AppFn.block(self, stmts, env, k)
+            finally:
+                self._proto_depth -= 1
+        if isinstance(s, ast.If):
+            t_ = s.test.operand if isinstance(s.test, ast.UnaryOp) and isinstance(s.test.op, ast.Not) else None
+            if t_ is not None and self.isinstance_true(t_, env) and not s.orelse:
+                return self.block(rest, env, k)      # `if not isinstance(operand, <its class>): ...` is not taken
+        if isinstance(s, ast.AnnAssign) and isinstance(s.target, ast.Name) and s.value is not None:
+            ann = ast.unparse(s.annotation).replace(" ", "")
+            if ann in ("dict[str,complex]", "Dict[str,complex]") and ast.unparse(s.value) == "defaultdict(complex)":
+                x = s.target.id
+                self.declare(x, T_dict(PS, GI), s)
+                return "(let v_%s : %s := [] in %s)" % (x, coq_type(T_dict(PS, GI)), self.block(rest, env | {x}, k))
+            if ann == "complex":
+                s = ast.copy_location(ast.Assign(targets=[s.target], value=s.value), s)
+                return self.block([s] + rest, env, k)
+        if isinstance(s, ast.AugAssign) and isinstance(s.op, ast.Add):
+            tg = s.target
+            if isinstance(tg, ast.Subscript) and isinstance(tg.value, ast.Name) and tg.value.id in env and self.vars[tg.value.id] == T_dict(PS, GI):
+                d = tg.value.id
+                kc, kt, kg = self.expr(tg.slice, env); c, g = self.gi_of(s.value, env)
+                if kt != PS: bad(s, "dict key")
+                return self.guard(kg + g, "(let v_%s := dict_add v_%s %s %s in %s)" % (d, d, kc, c, self.block(rest, env, k)))
+            if isinstance(tg, ast.Name) and tg.id in env and self.vars[tg.id] == GI:
+                c, g = self.gi_of(s.value, env)
+                return self.guard(g, "(let v_%s := (gadd v_%s %s) in %s)" % (tg.id, tg.id, c, self.block(rest, env, k)))
+        if isinstance(s, ast.Assign) and len(s.targets) == 1 and isinstance(s.targets[0], ast.Name) and ast.unparse(s.value) == "[]" and s.targets[0].id not in self.params:
+            x = s.targets[0].id
+            if x not in self.ctypes:          # typed by the first append (first pass)
+                self.vars.setdefault(x, ("list", "?"))
+                return self.block(rest, env | {x}, k) if True else None
+            t = T_list(self.ctypes[x])
+            self.vars[x] = t
+            return "(let v_%s : %s := [] in %s)" % (x, coq_type(t), self.block(rest, env | {x}, k))
+        if isinstance(s, ast.Expr) and isinstance(s.value, ast.Call) and isinstance(s.value.func, ast.Attribute) and s.value.func.attr == "append" \
+           and isinstance(s.value.func.value, ast.Name) and self.vars.get(s.value.func.value.id) == ("list", "?"):
+            x = s.value.func.value.id
+            c, t, g = self.expr(s.value.args[0], env)
+            self.ctypes[x] = t
+            return self.block(rest, env, k)
+        return AppFn.block(self, stmts, env, k)
+
+    def emit(self):
+        self.ctypes = {}
+        self.prepare()
+        body = self.node.body
+        ps = " ".join("(v_%s : %s)" % (n, coq_type(t)) for n, t in self.params.items())
+        if self.pure:
+            ret = [s for s in body if isinstance(s, ast.Return)][0]
+            c, t, g = self.expr(ret.value, set())
+            self.ret = t
+            return "Definition %s %s : %s := %s." % (self.coq, ps, coq_type(t), c)
+        first = None
+        try:
+            self.block(body, set(), None)
+        except Unsupported as e_:
+            if not any(v == ("list", "?") for v in self.vars.values()): raise
+            first = e_
+        for v in list(self.vars):
+            if self.vars[v] == ("list", "?"):
+                if v not in self.ctypes:
+                    if first is not None: raise first
+                    bad(self.node, "list %s is never appended to" % v)
+                self.vars[v] = T_list(self.ctypes[v])
+        self.block(body, set(), None)
+        term = self.block(body, set(), None)
+        if self.ret is None: bad(self.node, "no return type")
+        inits = "".join("let v_%s : %s := %s in " % (v, coq_type(t), default(t, self.tr.enums)) for v, t in self.vars.items() if v not in self.params)
+        return ("(* PauliStringLinear.%s, lines %d-%d; state = (%s) *)\nDefinition %s %s : fres %s :=\n  %s@finish %s _ (%s)." % (
+            self.name, self.node.lineno, self.node.end_lineno, ", ".join(self.vars), self.coq, ps, coq_type(self.ret), inits, self.state_type(), term))
+
+
+class LinTranslator:
+    WANT = ["simplify", "__add__", "__matmul__", "__mul__", "__rmul__", "h", "trace", "is_zero", "__eq__"]
+    def __init__(self, repo):
+        self.enums, self.exns, self.fns, self.families = {}, [], {}, {}
+        rd = lambda rel: ast.parse(open(os.path.join(repo, "src", "paulie", rel), newline=None, encoding="utf-8-sig").read())
+        lin = rd("common/pauli_string_linear.py"); fac = rd("common/pauli_string_factory.py")
+        self.defs = {f.name: f for c in lin.body if isinstance(c, ast.ClassDef) and c.name == "PauliStringLinear" for f in c.body if isinstance(f, ast.FunctionDef)}
+        def body_of(n):
+            return [ast.unparse(x) for x in n.body if not (isinstance(x, ast.Expr) and isinstance(x.value, ast.Constant))]
+        pins = [("__init__", ["num_qubits = len(str(combinations[0][1])) if combinations else 0", "super().__init__(n=num_qubits)", "self.nextpos = 0",
+                              "self.combinations = [(c[0], PauliString(pauli_str=str(c[1]))) for c in combinations]"]),
+                ("__len__", ["return len(self.combinations)"]),
+                ("__iter__", ["self.nextpos = 0", "return self"]),
+                ("__next__", ["if self.nextpos >= len(self):\n    raise StopIteration", "value = self.combinations[self.nextpos]", "self.nextpos += 1", "return value"]),
+                ("get_size", ["try:\n    _, first_pauli = next(iter(self))\n    return len(first_pauli)\nexcept StopIteration:\n    return 0"])]
+        for name, want in pins:
+            if name not in self.defs or body_of(self.defs[name]) != want:
+                raise Unsupported("pinned source of PauliStringLinear.%s changed: %r" % (name, body_of(self.defs[name]) if name in self.defs else None))
+        gps = {f.name: f for f in fac.body if isinstance(f, ast.FunctionDef)}.get("get_pauli_string")
+        want = ["if isinstance(o, str):\n    return PauliString(pauli_str=o, n=n)", "if isinstance(o, PauliString):\n    return o",
+                "if isinstance(o, list):\n    if len(o) > 0 and isinstance(o[0], tuple):\n        return PauliStringLinear(o)"]
+        if gps is None or body_of(gps)[:3] != want:
+            raise Unsupported("factory.get_pauli_string no longer hands a non-empty list of tuples to PauliStringLinear")
+
+    def run(self):
+        out = ["(* GENERATED by tools/py2coq.py from src/paulie/common/pauli_string_linear.py — do not edit *)",
+               "From PauLieRefine Require Import PySem.", "From PauLie Require Import Pauli Matrix Linear.", "Open Scope Z_scope.", "",
+               "Definition res_ok {A} (r : res A) : bool := match r with Ok _ => true | ValueError => false end.",
+               "Definition res_val {A} (d : A) (r : res A) : A := match r with Ok a => a | ValueError => d end.",
+               "(* dict[str, complex]: lookup, membership, plain store (a dict comprehension), key-set comparison *)",
+               "Fixpoint gdict_get (d : list (pstr * gi)) (k : pstr) : gi := match d with [] => g0 | (q, e) :: t => if pstr_eqb k q then e else gdict_get t k end.",
+               "Definition gdict_mem (d : list (pstr * gi)) (k : pstr) : bool := existsb (fun x => pstr_eqb k (fst x)) d.",
+               "Fixpoint gdict_set (d : list (pstr * gi)) (k : pstr) (v : gi) : list (pstr * gi) :=",
+               "  match d with [] => [(k, v)] | (q, e) :: t => if pstr_eqb k q then (q, v) :: t else (q, e) :: gdict_set t k v end.",
+               "Definition keys_eqb (a b : list (pstr * gi)) : bool := forallb (fun x => gdict_mem b (fst x)) a && forallb (fun x => gdict_mem a (fst x)) b.", ""]
+        for name in self.WANT:
+            node = self.defs.get(name)
+            if node is None: raise Unsupported("PauliStringLinear.%s not found in the source" % name)
+            f = LinFn(self, node, "py_L_" + name.strip("_"))
+            out.append(f.emit()); out.append("")
+            self.fns[name] = f
+        return "\n".join(out)
+
+
 def main():
     repo, dst = sys.argv[1], sys.argv[2]
     which = sys.argv[3] if len(sys.argv) > 3 else "classification"
-    path = os.path.join(repo, "src", "paulie", {"classification": "classifier/classification.py", "compiler": "application/pauli_compiler.py", "pstring": "common/pauli_string_bitarray.py", "collection": "common/pauli_string_collection.py", "parser": "common/pauli_string_parser.py", "table": "common/two_local_generators.py", "apps": "application/otoc.py"}[which])
+    path = os.path.join(repo, "src", "paulie", {"classification": "classifier/classification.py", "compiler": "application/pauli_compiler.py", "pstring": "common/pauli_string_bitarray.py", "collection": "common/pauli_string_collection.py", "parser": "common/pauli_string_parser.py", "table": "common/two_local_generators.py", "apps": "application/otoc.py", "linear": "common/pauli_string_linear.py"}[which])
     try:
-        text = Translator(path).run() if which == "classification" else (CompTranslator(repo).run() if which == "compiler" else (PSTranslator(repo).run() if which == "pstring" else (CollTranslator(repo).run() if which == "collection" else (ParserTranslator(repo).run() if which == "parser" else (AppTranslator(repo).run() if which == "apps" else TableTranslator(repo).run())))))
+        text = Translator(path).run() if which == "classification" else (CompTranslator(repo).run() if which == "compiler" else (PSTranslator(repo).run() if which == "pstring" else (CollTranslator(repo).run() if which == "collection" else (ParserTranslator(repo).run() if which == "parser" else (AppTranslator(repo).run() if which == "apps" else (LinTranslator(repo).run() if which == "linear" else TableTranslator(repo).run()))))))
     except Unsupported as e:
         print("py2coq: cannot translate %s: %s" % ("common/get_graph.py, application/otoc.py, fourpoint.py, charges.py or the graph methods of the collection" if which == "apps" else path, e)); sys.exit(3)
     with open(dst, "w") as f:
